@@ -5,7 +5,7 @@ metacharacter up to a length bound, plus random long/binary cases."""
 import itertools
 import random
 
-from .. import core
+from .. import core, execgen, execsuite
 
 ALPHA = b"ab*?[]^-\\"
 
@@ -46,7 +46,47 @@ def gen_random(rng, n):
     return lines
 
 
+def keys_command_lines(rng, tier):
+    """the KEYS *command* (memdb/keys.go: expiry filter, any fast path, reply building) on keyspaces whose names contain the metacharacters:
+    every pattern up to length 3 (quick) / 4 (thorough) over the 9-byte alphabet against all 43 names of length <= 2 over {a b \\ * ? [},
+    plus random longer patterns against random longer names"""
+    KA = b"ab\\*?["
+    lines = []
+
+    def fill(names):
+        out = ["R"]
+        for i in range(0, len(names), 12):
+            argv = [b"MSET"]
+            for k in names[i:i + 12]:
+                argv += [k, b"v"]
+            out.append(execgen.render(argv, []))
+        return out
+    lines += fill(all_strings(KA, 2))
+    for p in all_strings(ALPHA, 3 if tier == "quick" else 4):
+        lines.append(execgen.render([b"KEYS", p], []))
+    for _ in range(6 if tier == "quick" else 60):
+        names = list({bytes(rng.choice(b"ab\\*?[]^-c\x00") for _ in range(rng.randint(0, 5))) for _ in range(30)})
+        lines += fill(names)
+        lines.append(execgen.render([b"EXPIRE", names[0], b"-1"], []))   # a name that must no longer be listed
+        for g in gen_random(rng, 250):
+            lines.append(execgen.render([b"keys", core.unhx(g.split()[1])], []))
+        for nme in names[:8]:      # the name itself as a pattern (escaped and unescaped)
+            lines.append(execgen.render([b"KEYS", nme], []))
+            lines.append(execgen.render([b"KEYS", b"".join(b"\\" + bytes([c]) for c in nme)], []))
+    return lines
+
+
 def run(R, ctx):
+    run_glob(R, ctx)
+    rule = R.rule
+    rng = random.Random(R.seed * 7919 + 17)
+    execsuite.run_exec_suite(R, ctx, "keys-command", [], (0, 0), "exec_c17",
+                             "the KEYS command end to end on keyspaces whose names contain glob metacharacters",
+                             extra_lines=keys_command_lines(rng, R.tier))
+    R.rule = rule + " || KEYS command: " + R.rule
+
+
+def run_glob(R, ctx):
     R.rule = ("exhaustive: every pattern of length <= P over the 9-byte alphabet {a b * ? [ ] ^ - \\} against every subject of length <= S "
               "over the same alphabet (P,S in coverage.bounds); random: seeded long/binary patterns with subjects derived from them. "
               "A pattern line is non-trivial when the model matches at least one subject; a random pair when the model says match.")
